@@ -394,9 +394,10 @@ structure TriRowsInv (tc : Tri) (w : Nat) (off : StrokeOffset) (hasFill collapse
 theorem TriScanlines.next_inv {tc : Tri} {w : Nat} {off : StrokeOffset} {hasFill collapsed : Bool}
     {lo hi r0 rEnd : Int} (ctx : TriCtx tc w off lo hi collapsed hasFill) (it : TriScanlines)
     (hi' : TriRowsInv tc w off hasFill collapsed lo hi r0 rEnd it) (sc : Scanline) (ty : PointType)
-    (it' : TriScanlines) (h : it.next = some (some ((sc, ty), it'))) :
+    (it' : TriScanlines) (h : it.nextLoop = some (some ((sc, ty), it'))) :
     TriRowsInv tc w off hasFill collapsed lo hi r0 rEnd it' ∧ GoodLine lo hi r0 rEnd sc := by
-  unfold TriScanlines.next at h
+  rw [TriScanlines.nextLoop_eq_def] at h
+  unfold TriScanlines.nextLoopDef at h
   cases hn : it.intersections.next with
   | some x =>
     obtain ⟨⟨sc0, ty0⟩, ints⟩ := x
@@ -431,6 +432,20 @@ theorem TriScanlines.next_inv {tc : Tri} {w : Nat} {off : StrokeOffset} {hasFill
     · simp only [hr, ↓reduceIte, Option.some.injEq] at h
       cases h
 
+/-- The invariant also survives a call that returns `None` (the iterator is not fused: it then stands
+on the next row, or is unchanged when `rows` is exhausted). -/
+theorem TriScanlines.next_none_inv {tc : Tri} {w : Nat} {off : StrokeOffset} {hasFill collapsed : Bool}
+    {lo hi r0 rEnd : Int} (ctx : TriCtx tc w off lo hi collapsed hasFill) (it : TriScanlines)
+    (hi' : TriRowsInv tc w off hasFill collapsed lo hi r0 rEnd it)
+    (it' : TriScanlines) (h : it.next = some (none, it')) :
+    TriRowsInv tc w off hasFill collapsed lo hi r0 rEnd it' := by
+  obtain ⟨-, hcase⟩ := TriScanlines.next_none_state h
+  rcases hcase with ⟨-, rfl⟩ | ⟨hr, ints, hre, -, rfl⟩
+  · exact hi'
+  · have hinv := TriIntersections.reset_inv ctx it.intersections hi'.ti.tri hi'.ti.width hi'.ti.off
+      hi'.ti.fill hi'.ti.coll it.rowsStart hi'.rows (hi'.rend ▸ hr) ints hre
+    exact ⟨hinv, by show r0 ≤ it.rowsStart + 1; have := hi'.rows; omega, hi'.rend⟩
+
 theorem TriScanlines.toListFuel_inv {tc : Tri} {w : Nat} {off : StrokeOffset} {hasFill collapsed : Bool}
     {lo hi r0 rEnd : Int} (ctx : TriCtx tc w off lo hi collapsed hasFill) :
     ∀ (fuel : Nat) (it : TriScanlines), TriRowsInv tc w off hasFill collapsed lo hi r0 rEnd it →
@@ -440,7 +455,7 @@ theorem TriScanlines.toListFuel_inv {tc : Tri} {w : Nat} {off : StrokeOffset} {h
     subst h; intro x hx; cases hx
   | fuel + 1, it, hi', l, h => by
     unfold TriScanlines.toListFuel at h
-    cases hn : it.next with
+    cases hn : it.nextLoop with
     | none => rw [hn] at h; cases h
     | some x =>
       rw [hn] at h
@@ -481,7 +496,7 @@ theorem TriPixels.nextFuel_step {tc : Tri} {w : Nat} {off : StrokeOffset} {hasFi
           (lo ≤ p.x ∧ p.x ≤ hi ∧ r0 ≤ p.y ∧ p.y < rEnd))
     (it : TriPixels)
     (hi' : TPInv tc w off hasFill collapsed lo hi r0 rEnd it) (p : Pt) (c : Nat) (it' : TriPixels)
-    (h : (match it.linesIter.next with
+    (h : (match it.linesIter.nextLoop with
       | none => none
       | some none => some none
       | some (some ((nextLine, nextType), li)) =>
@@ -492,7 +507,7 @@ theorem TriPixels.nextFuel_step {tc : Tri} {w : Nat} {off : StrokeOffset} {hasFi
             | .fill => it.fillColor }) = some (some ((p, c), it'))) :
     TPInv tc w off hasFill collapsed lo hi r0 rEnd it' ∧
       (lo ≤ p.x ∧ p.x ≤ hi ∧ r0 ≤ p.y ∧ p.y < rEnd) := by
-  cases hn : it.linesIter.next with
+  cases hn : it.linesIter.nextLoop with
   | none => rw [hn] at h; cases h
   | some x =>
     rw [hn] at h
@@ -502,7 +517,7 @@ theorem TriPixels.nextFuel_step {tc : Tri} {w : Nat} {off : StrokeOffset} {hasFi
       obtain ⟨⟨nl, nt⟩, li⟩ := y
       simp only at h
       rcases hi'.si with he | hinv
-      · rw [he, TriScanlines.empty_next] at hn; cases hn
+      · rw [he, TriScanlines.empty_nextLoop] at hn; cases hn
       · obtain ⟨a, b⟩ := TriScanlines.next_inv ctx _ hinv nl nt li hn
         exact ih _ ⟨Or.inr a, Or.inr b⟩ p c it' h
 
